@@ -8,6 +8,7 @@
   edge <id> <src> <dst> <sport> <dport>  an edge, in `edges()` order (ports: `_` = elided)      -> ok
   ref <node> <target|-> <0|1> <group|->  a resolved handoff reference                           -> ok
   partition                              run the partitioner model -> ok | err <cycle> | panic <what>
+  wf                                     the well-formedness hypotheses of the theorems hold on the graph -> true | false
   sgs                                    subgraphs in final order:  `1,2|3|4`  (`-` if none / not ok)
   hoffs                                  flat edge ids that received a handoff: `3,7`
   delays                                 delay marks: `e3:T n5:L` (e = inserted on flat edge, n = existing handoff)
@@ -84,6 +85,7 @@ def step (st : St) (line : String) : St × String :=
     | some (.ok r) =>
       (st, dash (" ".intercalate (r.delays.map fun d => (if d.1 then "e" else "n") ++ toString d.2.1 ++ ":" ++ showDelay d.2.2)))
     | _ => (st, "-")
+  | ["wf"] => (st, toString st.g.wfB)
   | ["depcycle"] =>
     let pairs := st.g.depPairs
     match topoSort st.g.nodeIds (Flat.predsOf pairs) with
